@@ -6,7 +6,9 @@
 #include <cstdio>
 #include <cstdlib>
 #include <cstring>
+#include <execinfo.h>
 #include <fcntl.h>
+#include <signal.h>
 #include <thread>
 #include <unistd.h>
 
@@ -419,7 +421,10 @@ void run_ops(int producer, const std::vector<Op> &ops)
             sim::sleep_ns((int64_t)op.a * sim::US);
         } else if (k == "yield") {
             sim::yield("op-yield");
-        } else if (producer != 0) {
+        } else if (k == "post_quit") {
+            if (C->app)
+                QMetaObject::invokeMethod(C->app, "quit", Qt::QueuedConnection);
+        } else if (producer != 0 && k != "move" && k != "reset") {
             continue; // the remaining ops are for the main thread only
         } else if (k == "spawn") {
             int p = op.a;
@@ -451,6 +456,14 @@ void run_ops(int producer, const std::vector<Op> &ops)
             sim::ev(E_STOP_BEGIN, (int)i, 1, C->app ? 1 : 0);
             C->oth->resetOwnThread();
             sim::ev(E_STOP_END, (int)i, 1);
+        } else if (k == "exec_wait") {
+            // run the main event loop until some thread posts quit (family H6: stops from other threads)
+            if (!C->app)
+                continue;
+            sim::ev(E_OP_BEGIN, (int)i);
+            C->app->exec();
+            sim::ev(E_STOP_END, (int)i, 2);
+            sim::ev(E_OP_END, (int)i);
         } else if (k == "exec_quit") {
             if (!C->app)
                 continue;
@@ -584,6 +597,23 @@ void warm_up()
     (void)QThread::currentThread();
 }
 
+static void segv_backtrace(int sig)
+{
+    void *bt[64];
+    int n = backtrace(bt, 64);
+    const char msg[] = "=== fatal signal, backtrace:\n";
+    if (write(2, msg, sizeof msg - 1) < 0) { }
+    backtrace_symbols_fd(bt, n, 2);
+    signal(sig, SIG_DFL);
+    raise(sig);
+}
+void install_crash_reporter()
+{
+    signal(SIGSEGV, segv_backtrace);
+    signal(SIGBUS, segv_backtrace);
+    signal(SIGFPE, segv_backtrace);
+}
+
 sim::SchedConfig sched_config(const Plan &P)
 {
     sim::SchedConfig sc;
@@ -627,6 +657,7 @@ void run_child(const Plan &P, const std::string &rundir)
         }
     }
 
+    install_crash_reporter();
     if (P.app) {
         static int argc = 1;
         static char a0[] = "tsim";
